@@ -1534,3 +1534,9 @@ mod tests {
         toml::from_str::<RibUnit>(toml)
     }
 }
+
+/// Verification hooks (feature `verif-hooks`, add-only). A child module of
+/// this file because `RibUnitRunner`'s fields are private to it.
+#[cfg(feature = "verif-hooks")]
+#[path = "verif_hooks_c01.rs"]
+pub mod verif_hooks_c01;
